@@ -9,7 +9,7 @@ exploration:    systematic single-token faults, section removal/reordering, trun
                 byte, random byte strings, on mesh files and parameter files, through mesh_reader, parameter_reader and
                 the complete start-up (simulation_initializer), built plain (outcome class, time and memory budget) and
                 with AddressSanitizer/UBSan (memory errors).  This part is validation, not proof."""
-import random, json, os, shutil, subprocess, sys, math
+import re, random, json, os, shutil, subprocess, sys, math
 import vlib, tissue
 from vlib import hx, unhx
 
@@ -450,7 +450,35 @@ def run(ck):
             unknown += 1
         ck.report(dict(mode=c[0], fault=c[1], file=(c[2] if c[2] is not None else b"").decode(errors="replace")[:20000], file_hex=(c[2] or b"")[:4000].hex() if c[1] in ("random_bytes", "xml_random_bytes") else None, where=str(c[3])),
                   oracle=key, key=kf, what=what)
-    pass
+    # ---- memory in proportion to the input: files of a few hundred bytes that DECLARE tens of millions of points, cells or values are
+    # refused (or read) without the process touching memory for the declared amount (peak resident set measured by /usr/bin/time)
+    try:
+        plain = vlib.build_driver("io")
+        dm = os.path.join(vlib.CACHE, "tmp", "c17_mem_%d" % os.getpid()); os.makedirs(dm, exist_ok=True)
+        Lm = mesh_file_lines(cellsA, [0])
+        variants = []
+        for name_, key_, col_ in (("points", "POINTS", 1), ("cells", "CELLS", 1), ("cell_types", "CELL_TYPES", 1)):
+            L2 = [list(r_) for r_ in Lm]
+            for r_ in L2:
+                if r_[:1] == [key_]:
+                    r_[col_] = "40000000"
+            variants.append((name_, render_lines(L2)))
+        rss = {}
+        for name_, text_ in variants:
+            fp_ = os.path.join(dm, name_ + ".vtk"); open(fp_, "w").write(text_)
+            px_ = os.path.join(dm, name_ + ".xml"); open(px_, "w").write(base_xml(fp_, os.path.join(dm, "out"), 0))
+            for mode_, arg_ in (("RD", fp_), ("ST", px_)):
+                r_ = vlib.run(["/usr/bin/time", "-f", "MAXRSS %M", plain], input="%s %s\n" % (mode_, arg_), timeout=600, env={"OMP_NUM_THREADS": "1"})
+                mm_ = re.search(r"MAXRSS (\d+)", r_.stderr)
+                if mm_:
+                    rss["%s/%s" % (mode_, name_)] = int(mm_.group(1)) // 1024
+                    if int(mm_.group(1)) > 256 * 1024:
+                        ck.report(dict(mode=mode_, fault="declared_count_40000000_" + name_, file=text_[:3000]), oracle="memory_in_proportion_to_the_input", key="startup:memory:" + mode_ + ":" + name_,
+                                  what="a %d-byte file declaring 40000000 %s made the process use %d MB of resident memory (budget 256 MB)" % (len(text_), name_, int(mm_.group(1)) // 1024))
+        ck.notes["peak_resident_MB_on_files_declaring_40000000_items"] = rss
+        shutil.rmtree(dm, ignore_errors=True)
+    except vlib.BuildError as e:
+        ck.notes["peak_resident_MB_on_files_declaring_40000000_items"] = "driver build failed: " + str(e)[-200:]
     if not ck.violations:
         if not ok:
             ck.report(dict(log=ck.proof_res["log"][-3000:]), unchecked="Properties_C17.vo", what="proof obligations of C17 no longer check")
